@@ -23,6 +23,10 @@ func chanField(v ssa.Value) *ssa.FieldAddr {
 		}
 	case *ssa.ChangeType:
 		return chanField(x.X)
+	case *ssa.Parameter:
+		// a channel handed to a goroutine body / helper as an argument: the field every
+		// call site passes (Prog.resolveChanParams)
+		return chanParamField[x]
 	case *ssa.Phi:
 		// all edges loads of the same field
 		var fa *ssa.FieldAddr
@@ -39,6 +43,58 @@ func chanField(v ssa.Value) *ssa.FieldAddr {
 		return fa
 	}
 	return nil
+}
+
+// chanParamField: channel-typed parameter -> the struct field whose value every call site
+// (call, go, defer) of its function passes for it.
+var chanParamField = map[*ssa.Parameter]*ssa.FieldAddr{}
+
+func (p *Prog) resolveChanParams() {
+	chanParamField = map[*ssa.Parameter]*ssa.FieldAddr{}
+	type site struct {
+		args []ssa.Value
+	}
+	sites := map[*ssa.Function][]site{}
+	for _, fn := range p.Funcs {
+		EachInstr(fn, func(in ssa.Instruction) {
+			ci, ok := in.(ssa.CallInstruction)
+			if !ok {
+				return
+			}
+			c := ci.Common()
+			sc := c.StaticCallee()
+			if sc == nil || !p.InScope(sc) {
+				return
+			}
+			sites[sc] = append(sites[sc], site{c.Args})
+		})
+	}
+	for i := 0; i < 2; i++ { // twice: a parameter forwarded through one more helper
+		for fn, ss := range sites {
+			for k, par := range fn.Params {
+				if _, isChan := par.Type().Underlying().(*types.Chan); !isChan {
+					continue
+				}
+				var fa *ssa.FieldAddr
+				ok := true
+				for _, s := range ss {
+					if k >= len(s.args) {
+						ok = false
+						break
+					}
+					f := chanField(s.args[k])
+					if f == nil || (fa != nil && FieldVar(fa) != FieldVar(f)) {
+						ok = false
+						break
+					}
+					fa = f
+				}
+				if ok && fa != nil {
+					chanParamField[par] = fa
+				}
+			}
+		}
+	}
 }
 
 // classifyClose decides which close-once idiom a builtin close(x) follows ("" = none).
@@ -609,7 +665,8 @@ func e10ResizeArms(p *Prog, r *Report, rule string) {
 				}
 				// only goroutine loops that end by closing the pipe are in scope
 				n++
-				key := fmt.Sprintf("%s/select-arm(<-%s)", p.FuncName(fn), Desc(st.Chan))
+				// (keyed by the field, not by how this function reaches the object)
+				key := fmt.Sprintf("%s/select-arm(<-%s)", p.FuncName(fn), fieldKeyOf(fa))
 				tgt := selectArmTarget(sel, k)
 				if tgt == nil {
 					r.Unk(rule, key, p.InstrPos(in), "cannot locate the arm of the select")
